@@ -840,3 +840,42 @@ package connect
 //@   tags C19, C16
 //@   ensures res != nil && |decl(res)| == 1 && typeis(decl(res)[0], "*recoverHandlerInterceptor") && cast(decl(res)[0], "*recoverHandlerInterceptor").handle == handle   // label: installs-exactly-one-recover-interceptor
 //@   assert@call(WithInterceptors#1): unfoldFall(seq(arg0), 0) && unfoldFall(seq(arg0), 1) && |arg0| == 1   // label: one-interceptor-passed
+
+// ---------------------------------------------------------------------------
+// error.go: classification of context errors (C15) and of uncoded errors (C02)
+// ---------------------------------------------------------------------------
+
+//@ func (*Error).Code(e) res
+//@   tags C02, C15
+//@   requires e != nil
+//@   ensures res == e.code
+
+//@ func CodeOf(err) res
+//@   tags C02, C15
+//@   ensures coded(err) ==> res == codeOf(err)
+//@   ensures !coded(err) ==> res == 2                                                                // label: uncoded-is-unknown
+
+//@ func wrapIfContextError(err) res
+//@   tags C15, C02
+//@   ensures err == nil ==> res == nil
+//@   ensures coded(err) ==> res == err                                                               // label: coded-errors-pass-through
+//@   ensures err != nil && !coded(err) && Is(err, context.Canceled) ==> asErr(res) == res && codeOf(res) == 1 && (forall t ref :: {Is(res, t)} !fresh(t) ==> (Is(res, t) <==> Is(err, t)))   // label: canceled-is-coded-canceled
+//@   ensures err != nil && !coded(err) && !Is(err, context.Canceled) && Is(err, context.DeadlineExceeded) ==> asErr(res) == res && codeOf(res) == 4 && (forall t ref :: {Is(res, t)} !fresh(t) ==> (Is(res, t) <==> Is(err, t)))   // label: deadline-is-coded-deadline-exceeded
+//@   ensures err != nil && !coded(err) && !Is(err, context.Canceled) && !Is(err, context.DeadlineExceeded) ==> res == err   // label: other-errors-unchanged
+//@   ensures err != nil ==> res != nil
+
+//@ func wrapIfUncoded(err) res
+//@   tags C02, C15, C06
+//@   ensures err == nil ==> res == nil
+//@   ensures err != nil ==> res != nil && coded(res)                                                 // label: result-is-coded
+//@   ensures coded(err) ==> res == err                                                               // label: coded-errors-pass-through
+//@   ensures err != nil && !coded(err) && Is(err, context.Canceled) ==> codeOf(res) == 1
+//@   ensures err != nil && !coded(err) && !Is(err, context.Canceled) && Is(err, context.DeadlineExceeded) ==> codeOf(res) == 4
+//@   ensures err != nil && !coded(err) && !Is(err, context.Canceled) && !Is(err, context.DeadlineExceeded) ==> codeOf(res) == 2   // label: plain-errors-become-unknown
+//@   ensures err != nil ==> (forall t ref :: {Is(res, t)} !fresh(t) ==> (Is(res, t) <==> Is(err, t)))   // label: wrapping-preserves-the-chain
+
+//@ func wrapIfRSTError(err) res
+//@   tags C15
+//@   ensures err == nil ==> res == nil
+//@   ensures err != nil ==> res != nil
+//@   ensures coded(err) ==> res == err                                                               // label: coded-errors-pass-through
